@@ -21,14 +21,14 @@ from vf.zoo import unit, vec
 
 ID = "C01"
 LEVEL = "exploration"
-BUDGET = {"quick": 384, "thorough": 1920}
+BUDGET = {"quick": 384, "thorough": 768}
 MIN_NONTRIVIAL = {"quick": 20, "thorough": 300}
 RULE = (
     "Hypothesis draws a system (Euclidean / Gaussian-split with every metric type and explicit integrators incl. "
     "generated compositions, in half of the cases hard walls outside which the density is inf or NaN (zero-weight states); at lower frequency Riemannian and "
     "constrained systems with solver tolerances 1e-13), a relative step size 0.1-1.9 of the stability limit, a "
     "start state and a transition: static Metropolis (1-6 steps), random Metropolis (ranges within 1-7), multinomial "
-    "and slice dynamic with max_tree_depth 1-3 (4 in thorough), both termination criteria, sub-tree checks on/off, "
+    "and slice dynamic with max_tree_depth 1-3, both termination criteria, sub-tree checks on/off, "
     "slice max_delta_h from 0.003 to inf; in a third of the cases integrator failures are injected with a "
     "time-symmetric rule (steps starting or ending outside a box raise ConvergenceError). For every start index of the orbit window (both directions for Metropolis) "
     "ALL outcomes of the internal random draws are enumerated with exact probabilities (scripted generator; the "
@@ -83,7 +83,9 @@ def _case(draw, max_depth):
 
 
 def strategy(tier):
-    return _case(3 if tier == "quick" else 4)
+    # (depth 4 in the thorough tier was dropped at the end of the build: with it single cases take minutes - every start
+    # of a 31-state window times every path of the tree - and 1 920 cases did not finish in 40 minutes on 16 cores)
+    return _case(3)
 
 
 def selfcheck():
